@@ -12,7 +12,7 @@ Failing(e) ==
        \cup (IF (\E j \in 1..Len(e.sig) : e.sig[j].kind = "varkw") # WantsVarKw(ST, e.m) THEN {"overflow_keywords_advertised_wrongly"} ELSE {})
   ELSE IF e.kind = "deliver" THEN
        LET want(k) == Destination(ST, e.m, k) IN
-          (IF \E j \in 1..Len(e.kws) : want(e.kws[j].n) # {"rejected"} /\ (e.res # "ok" \/ e.kws[j].where \notin want(e.kws[j].n)) THEN {"advertised_keyword_not_delivered"} ELSE {})
+          (IF \E j \in 1..Len(e.kws) : want(e.kws[j].n) # {"rejected"} /\ (e.res # "ok" \/ \A x \in 1..Len(e.kws[j].where) : e.kws[j].where[x] \notin want(e.kws[j].n)) THEN {"advertised_keyword_not_delivered"} ELSE {})
        \cup (IF e.res = "ok" /\ \E j \in 1..Len(e.kws) : want(e.kws[j].n) = {"rejected"} THEN {"unadvertised_call_accepted"} ELSE {})
   ELSE LET b == Binds(e.sig, e.call) IN
           (IF b /\ e.res # "accept" THEN {"advertised_call_rejected"} ELSE {})
@@ -26,7 +26,7 @@ Bad == UNION {{[i |-> i, c |-> c, d |-> ""] : c \in F[i]} : i \in BadIdx}
 Ante == [sigs |-> Cardinality({i \in 1..N : Events[i].kind = "sig"}), accepted |-> Cardinality({i \in 1..N : Events[i].kind = "call" /\ Events[i].res = "accept"}),
          rejected |-> Cardinality({i \in 1..N : Events[i].kind = "call" /\ Events[i].res = "TypeError"}),
          delivered |-> Cardinality({i \in 1..N : Events[i].kind = "deliver" /\ Events[i].res = "ok"}),
-         overflowed |-> Cardinality({i \in 1..N : Events[i].kind = "deliver" /\ \E j \in 1..Len(Events[i].kws) : Events[i].kws[j].where \notin {"attr", "nowhere"}}),
+         overflowed |-> Cardinality({i \in 1..N : Events[i].kind = "deliver" /\ \E j \in 1..Len(Events[i].kws) : \E x \in 1..Len(Events[i].kws[j].where) : Events[i].kws[j].where[x] # "attr"}),
          nested |-> Cardinality({i \in 1..N : Events[i].kind = "sig" /\ NestedClass(ST, Events[i].m) # ""})]
 ASSUME JsonSerialize(IOEnv.VERIF_OUT, <<[bad |-> SetToSeq(Bad), n |-> N, ante |-> Ante]>>)
 Init == dummy = 0
